@@ -1,6 +1,6 @@
 SPECIFICATION TSpec
 CONSTANTS Sizes = {}
-          Stats = FALSE
-INVARIANTS BoundOK NothingLost NoEmptyWrite
+          Stats = TRUE
+INVARIANTS WindowOK WindowData Refines Terminates
 POSTCONDITION Accepted
 CHECK_DEADLOCK FALSE
